@@ -1598,7 +1598,8 @@ class Interp:
             params = params[skip:]
         out = list(args)
         rest = dict(kw)
-        for p in params[len(args):]:
+        # (keyword-only parameters follow in the order they are declared)
+        for p in (params + list(fi.kwonly))[len(args):]:
             if p in rest:
                 out.append(rest.pop(p))
             else:
@@ -1680,7 +1681,9 @@ class Interp:
             env[params[0]] = recv
             params = params[1:]
         dflt = fi.defaults()
-        for i, p in enumerate(params):
+        # (_positional puts keyword-only arguments after the positional ones)
+        for i, p in enumerate(params + [k for k in fi.kwonly
+                                        if k not in kw]):
             if i < len(args) and args[i][0] != 'splat':
                 env[p] = args[i]
         for k, v in kw.items():
